@@ -229,7 +229,7 @@ func (h *hist) verifyTok(t int, key int) {
 // ---- C01
 
 func genC01(r *rand.Rand, run int, tier string) *vm.Plan {
-	h := newHist(r, 1+r.Intn(2), false)
+	h := newHist(r, 1+r.Intn(2), run%3 == 0)
 	nt := 1 + r.Intn(3)
 	for i := 0; i < nt; i++ {
 		h.issue()
